@@ -189,7 +189,7 @@ def _strategy_cheap():
     rest = [n for n in cheap if _module_of(n) != "rtransform"]
     ali = [n for n in rest if reg.OPS[n].alias]
     cbs = [n for n in cheap if reg.OPS[n].cbs]
-    pools = [(rest, 3), (ali, 4), (cbs, 1), (tf, 2)]
+    pools = [(rest, 3), (ali, 4), (cbs, 2), (tf, 2)]
     parts = []
     for names, weight in pools:
         for _ in range(weight):
@@ -272,7 +272,7 @@ def subchecks(tier, seed):
     quick = tier == "quick"
     d1 = [{"seed": 11, "n": 3, "v": seed % 7}, {"seed": 12 + seed, "n": 6, "v": 3 + seed}]
     d_solver = [{"seed": 5, "n": 2, "v": (seed * 5) % 12}]
-    n_cheap, n_solver = (6000, 64) if quick else (120000, 1600)
+    n_cheap, n_solver = (24000, 160) if quick else (400000, 3000)
     return [
         SubCheck("operations", body, strategy=_strategy_cheap(), examples=n_cheap, cases=sweep_cases("cheap", d1), shards=16),
         SubCheck(
@@ -282,5 +282,7 @@ def subchecks(tier, seed):
             examples=n_solver,
             cases=pinned_cases() + (sweep_cases("solver", d_solver) if not quick else []),
             shards=16,
+            shrink=not quick,  # a descriptor is six small fields; shrinking a 1 s solver case buys nothing in the quick tier
+            max_rounds=2 if quick else 4,
         ),
     ]
